@@ -108,6 +108,15 @@ def e1_jobs(prop, tier, seed):
         j.env["MIRIFLAGS"] = f"-Zmiri-seed={seed * 31 + k}"
         j.crash = crash
     jobs += mj
+    # 32-bit only: a front offset beyond usize::MAX>>5 promotes the inline BytesMut inside advance();
+    # reached under Miri i686 with a 128 MiB zeroed buffer
+    if prop in ("C01", "C02", "C03", "C04"):
+        nb = 2 if quick else 8
+        bj = miri_jobs("seqdrive", [["bigoff", "--seed", str(seed * 5 + k), "--ops", "10", "--prop", prop] for k in range(nb)], "miri-i686-bigoff", seeds=None, target="i686-unknown-linux-gnu", timeout=1500)
+        for k, j in enumerate(bj):
+            j.env["MIRIFLAGS"] = f"-Zmiri-seed={seed + k}"
+            j.crash = crash
+        jobs += bj
     # abort-class requests (representable but unallocatable capacities), one child process each:
     # accepted outcomes are a panic or the allocation-failure abort; "returned" is judged by the monitors
     if prop in ("C04", "C13"):
